@@ -231,6 +231,9 @@ func observeBig(kind string, a, b *side) string {
 	got := equalObs(a.build(genT, 0), b.build(genT, 0), "r", "r")
 	back := equalObs(b.build(genT, 0), a.build(genT, 0), "r", "r")
 	if got == want && back == want {
+		if strings.Contains(kind, "/d") {
+			return "big " + got // data-big: the model side evaluates value_eq on the decoded values
+		}
 		return "big"
 	}
 	return "big-FAIL:" + got + back + "/want=" + want
@@ -361,8 +364,9 @@ func run(out *Out, r *Rand, tier string, replay []string) {
 				y, kind = x^2, "big/F"
 			}
 			a := &side{m: &rd.Msg{Segs: [][]byte{bigMsg(dw, 2, []uint64{x}, true)}, Arena: "M"}, sel: "r"}
-			b := &side{m: &rd.Msg{Segs: [][]byte{bigMsg([]int{1, 40000, 65535}[r.Intn(3)], []int{1, 65535}[r.Intn(2)], []uint64{y}, true)}, Arena: "M"}, sel: "r"}
-			line := fmt.Sprintf("%s/d%d 0 %s %s", kind, dw, a.String(), b.String())
+			b := &side{m: &rd.Msg{Segs: [][]byte{bigMsg([]int{1, 40000, 65535}[r.Intn(3)], 1, []uint64{y}, true)}, Arena: "M"}, sel: "r"}
+			kind = fmt.Sprintf("%s/d%d", kind, dw)
+			line := fmt.Sprintf("%s 0 %s %s", kind, a.String(), b.String())
 			out.Case("big", line, observeBig(kind, a, b), "big", true)
 		}
 	}
